@@ -1,1 +1,749 @@
-fn main(){}
+//! C05 harness: histories of operations on `steel_rc::BiasedRc` executed by real threads under a
+//! deterministic token-passing scheduler.  The `verif` feature of steel-rc turns every access
+//! of the count word into a yield point and quarantines destroyed boxes instead of freeing
+//! them, so an execution is a pure function of (history, schedule) and an access to a
+//! destroyed box is reported instead of being undefined behaviour.
+//!
+//! Usage (driven by svcheck, one process per batch to isolate crashes):
+//!   svrc run        < cases.jsonl   > results.jsonl      (one JSON case per line)
+//!   svrc exhaustive < cases.jsonl   > results.jsonl      (enumerate all schedules per case)
+
+use std::io::{BufRead, Write};
+use std::sync::atomic::{AtomicU32, AtomicUsize, Ordering};
+use std::sync::{Arc, Condvar, Mutex};
+
+use steel_rc::{verif, BiasedRc, QueueHandle};
+
+const MAX_OBJ: usize = 3;
+static DROPS: [AtomicUsize; MAX_OBJ * 64] = [const { AtomicUsize::new(0) }; MAX_OBJ * 64];
+
+const ALIVE: u32 = 0xA11CE;
+const DEAD: u32 = 0xDEAD;
+
+/// payload: knows which logical object it is; destruction is counted and poisons the magic
+#[derive(Debug)]
+struct P {
+    obj: usize,
+    magic: AtomicU32,
+    value: AtomicU32,
+}
+
+impl Clone for P {
+    fn clone(&self) -> Self {
+        // make_mut on a shared value clones the payload into a NEW logical object
+        let id = NEXT_OBJ.fetch_add(1, Ordering::SeqCst);
+        P { obj: id, magic: AtomicU32::new(ALIVE), value: AtomicU32::new(self.value.load(Ordering::SeqCst)) }
+    }
+}
+
+impl Drop for P {
+    fn drop(&mut self) {
+        self.magic.store(DEAD, Ordering::SeqCst);
+        DROPS[self.obj].fetch_add(1, Ordering::SeqCst);
+    }
+}
+
+static NEXT_OBJ: AtomicUsize = AtomicUsize::new(0);
+
+#[derive(Clone, Debug, serde::Deserialize, serde::Serialize, PartialEq)]
+enum Op {
+    /// clone handle `h` (index into the thread's handle list, modulo its length)
+    Clone(u8),
+    Drop(u8),
+    /// move handle `h` to thread `t`
+    Move(u8, u8),
+    GetMut(u8),
+    MakeMut(u8),
+    TryUnwrap(u8),
+    StrongCount(u8),
+    /// read the payload through handle h
+    Read(u8),
+    /// QueueHandle::run_explicit_merge() on this thread
+    Merge,
+}
+
+#[derive(Clone, Debug, serde::Deserialize, serde::Serialize)]
+struct Case {
+    /// ops per thread; thread 0 creates the objects first
+    threads: Vec<Vec<Op>>,
+    objects: u8,
+    schedule: Vec<u8>,
+    /// operations are scheduler-atomic (threads switch only between operations): the handle
+    /// model is then exact, so a value that is never destroyed can be told from a legitimate
+    /// orphan.  With false (default) every count-word access is a switch point.
+    #[serde(default)]
+    atomic_ops: bool,
+}
+
+#[derive(Debug, serde::Serialize, Default)]
+struct Outcome {
+    violations: Vec<String>,
+    steps: usize,
+    decisions: Vec<u8>,
+    /// number of runnable choices at each decision (for exhaustive enumeration)
+    widths: Vec<u8>,
+    shared_moment: bool,
+    slow_ops: usize,
+    merges: usize,
+    schedules_run: usize,
+}
+
+struct Sched {
+    m: Mutex<SchedState>,
+    cv: Condvar,
+}
+
+struct SchedState {
+    /// which thread holds the token (usize::MAX = nobody yet)
+    current: usize,
+    /// threads currently waiting at a yield point or not yet started
+    waiting: Vec<bool>,
+    finished: Vec<bool>,
+    schedule: Vec<u8>,
+    pos: usize,
+    decisions: Vec<u8>,
+    widths: Vec<u8>,
+    steps: usize,
+}
+
+thread_local! {
+    static MY_INDEX: std::cell::Cell<usize> = const { std::cell::Cell::new(usize::MAX) };
+    /// set while the thread runs a queue merge: the merge holds a lock of the global queue map,
+    /// so yielding inside it could park the lock holder while the scheduled thread blocks on
+    /// that lock.  A merge is therefore one scheduler step (stated limit, DESIGN.md C05).
+    static IN_MERGE: std::cell::Cell<bool> = const { std::cell::Cell::new(false) };
+}
+
+impl Sched {
+    fn pick_next(st: &mut SchedState) {
+        let runnable: Vec<usize> = (0..st.waiting.len()).filter(|i| st.waiting[*i] && !st.finished[*i]).collect();
+        if runnable.is_empty() {
+            st.current = usize::MAX;
+            return;
+        }
+        let choice = if runnable.len() == 1 {
+            0
+        } else {
+            let c = st.schedule.get(st.pos).copied().unwrap_or(0) as usize;
+            st.pos += 1;
+            // monotone map of the schedule byte onto the runnable set
+            let idx = (c * runnable.len()) >> 8;
+            st.decisions.push(idx as u8);
+            st.widths.push(runnable.len() as u8);
+            idx
+        };
+        st.current = runnable[choice];
+    }
+
+    /// called by a worker at every yield point (and at start)
+    fn yield_now(&self, me: usize) {
+        let mut st = self.m.lock().unwrap();
+        st.waiting[me] = true;
+        st.steps += 1;
+        // the very first decision is taken when every thread has arrived
+        let all_arrived = (0..st.waiting.len()).all(|i| st.waiting[i] || st.finished[i]);
+        if st.current == me || (st.current == usize::MAX && all_arrived) {
+            Self::pick_next(&mut st);
+            self.cv.notify_all();
+        }
+        while st.current != me {
+            st = self.cv.wait(st).unwrap();
+        }
+        st.waiting[me] = false;
+    }
+
+    fn finish(&self, me: usize) {
+        let mut st = self.m.lock().unwrap();
+        st.finished[me] = true;
+        st.waiting[me] = false;
+        if st.current == me {
+            Self::pick_next(&mut st);
+            self.cv.notify_all();
+        }
+    }
+}
+
+struct World {
+    inboxes: Vec<Mutex<Vec<BiasedRc<P>>>>,
+    /// threads that started their exit procedure: no handle may be moved to them any more
+    exiting: Vec<std::sync::atomic::AtomicBool>,
+    /// model of the biased side: (owner thread or usize::MAX, owner-side count) per object.
+    /// An object whose owner exits while the owner-side count is positive (its handles migrated
+    /// to other threads) can never be merged: it legitimately leaks (`orphaned`).
+    biased: Mutex<Vec<(usize, i64)>>,
+    /// (shared-side count, queued on the owner's queue)
+    shared_model: Mutex<Vec<(i64, bool)>>,
+    orphaned: Mutex<Vec<bool>>,
+    /// model: number of live handles per logical object
+    live: Mutex<Vec<i64>>,
+    /// at some point two different threads held handles to one object
+    holders: Mutex<Vec<Vec<usize>>>,
+    violations: Mutex<Vec<String>>,
+    shared_moment: std::sync::atomic::AtomicBool,
+    slow_ops: AtomicUsize,
+    merges: AtomicUsize,
+}
+
+impl World {
+    /// Model of the two counters (exact for two-thread histories, where the shared side is
+    /// only touched by the single non-owner thread and by the owner's merges).
+    fn owner_side(&self, obj: usize, me: usize, delta: i64) {
+        let mut b = self.biased.lock().unwrap();
+        let mut sh = self.shared_model.lock().unwrap();
+        if obj >= b.len() {
+            b.resize(obj + 1, (usize::MAX, 0));
+        }
+        if obj >= sh.len() {
+            sh.resize(obj + 1, (0, false));
+        }
+        if b[obj].0 == me {
+            b[obj].1 += delta;
+            if b[obj].1 <= 0 {
+                b[obj].0 = usize::MAX; // the owner's count reached zero: it disowns the object
+            }
+        } else {
+            // non-owner (or owner-less object): the shared count
+            sh[obj].0 += delta;
+            if sh[obj].0 < 0 && b[obj].0 != usize::MAX {
+                sh[obj].1 = true; // queued on the owner's queue
+            }
+        }
+    }
+
+    /// the owner `me` merges its queue: every queued object it owns is folded and disowned
+    fn model_merge(&self, me: usize) {
+        let mut b = self.biased.lock().unwrap();
+        let mut sh = self.shared_model.lock().unwrap();
+        for obj in 0..b.len().min(sh.len()) {
+            if b[obj].0 == me && sh[obj].1 {
+                sh[obj].0 += b[obj].1;
+                sh[obj].1 = false;
+                b[obj] = (usize::MAX, 0);
+            }
+        }
+    }
+
+    fn violation(&self, s: String) {
+        self.violations.lock().unwrap().push(s);
+    }
+
+    /// invariant after every operation (evaluated while holding the token)
+    fn check_invariants(&self, what: &str) {
+        let live = self.live.lock().unwrap();
+        for (obj, n) in live.iter().enumerate() {
+            let d = DROPS[obj].load(Ordering::SeqCst);
+            if *n > 0 && d > 0 {
+                self.violation(format!("payload of object {} destroyed while {} handle(s) are alive (after {})", obj, n, what));
+            }
+            if d > 1 {
+                self.violation(format!("payload of object {} destroyed {} times (after {})", obj, d, what));
+            }
+        }
+        for v in verif::take_violations() {
+            self.violation(format!("{} (after {})", v, what));
+        }
+    }
+
+    fn read(&self, h: &BiasedRc<P>, what: &str) -> usize {
+        let m = h.magic.load(Ordering::SeqCst);
+        if m != ALIVE {
+            self.violation(format!("handle sees a destroyed payload (magic {:x}) in {}", m, what));
+        }
+        h.obj
+    }
+}
+
+fn run_thread(me: usize, ops: Vec<Op>, world: Arc<World>, sched: Arc<Sched>, init: Vec<BiasedRc<P>>, atomic_ops: bool) {
+    MY_INDEX.with(|c| c.set(me));
+    QueueHandle::register_thread();
+    let mut handles: Vec<BiasedRc<P>> = init;
+    sched.yield_now(me);
+    for op in ops {
+        // take delivery of handles moved to this thread
+        {
+            let mut inbox = world.inboxes[me].lock().unwrap();
+            handles.append(&mut inbox);
+        }
+        let pick = |h: u8, n: usize| -> Option<usize> {
+            if n == 0 {
+                None
+            } else {
+                Some(h as usize % n)
+            }
+        };
+        let what = format!("thread {} {:?}", me, op);
+        if atomic_ops {
+            IN_MERGE.with(|c| c.set(true));
+        }
+        match op {
+            Op::Clone(h) => {
+                if let Some(i) = pick(h, handles.len()) {
+                    let obj = world.read(&handles[i], &what);
+                    let c = handles[i].clone();
+                    world.live.lock().unwrap()[obj] += 1;
+                    world.owner_side(obj, me, 1);
+                    handles.push(c);
+                }
+            }
+            Op::Drop(h) => {
+                if let Some(i) = pick(h, handles.len()) {
+                    let obj = world.read(&handles[i], &what);
+                    let x = handles.swap_remove(i);
+                    world.live.lock().unwrap()[obj] -= 1;
+                    world.owner_side(obj, me, -1);
+                    drop(x);
+                }
+            }
+            Op::Move(h, t) => {
+                if let Some(i) = pick(h, handles.len()) {
+                    let t = t as usize % world.inboxes.len();
+                    if t != me && !world.exiting[t].load(Ordering::SeqCst) {
+                        let x = handles.swap_remove(i);
+                        let obj = x.obj;
+                        {
+                            let mut holders = world.holders.lock().unwrap();
+                            if !holders[obj].contains(&t) {
+                                holders[obj].push(t);
+                            }
+                            if holders[obj].len() >= 2 {
+                                world.shared_moment.store(true, Ordering::SeqCst);
+                            }
+                        }
+                        world.inboxes[t].lock().unwrap().push(x);
+                    }
+                }
+            }
+            Op::GetMut(h) => {
+                if let Some(i) = pick(h, handles.len()) {
+                    let obj = world.read(&handles[i], &what);
+                    let got = BiasedRc::get_mut(&mut handles[i]).is_some();
+                    if got {
+                        // judged on the count after the call: another thread may have dropped
+                        // its handle while this call was in progress (that makes the grant
+                        // legitimate); nobody can have gained one without holding one
+                        let n = world.live.lock().unwrap()[obj];
+                        if n != 1 {
+                            world.violation(format!("get_mut granted exclusive access to object {} while {} handles exist ({})", obj, n, what));
+                        }
+                        if let Some(p) = BiasedRc::get_mut(&mut handles[i]) {
+                            p.value.fetch_add(1, Ordering::SeqCst);
+                        }
+                    }
+                }
+            }
+            Op::MakeMut(h) => {
+                if let Some(i) = pick(h, handles.len()) {
+                    let obj = world.read(&handles[i], &what);
+                    let before = BiasedRc::as_ptr(&handles[i]) as usize;
+                    // make_mut may drop this handle internally (when it clones): account for
+                    // that drop *before* it can happen, so that the invariant checks of other
+                    // threads never see a handle that is already gone
+                    world.live.lock().unwrap()[obj] -= 1;
+                    let was_owner = world.biased.lock().unwrap().get(obj).map(|b| b.0 == me).unwrap_or(false);
+                    {
+                        let p = BiasedRc::make_mut(&mut handles[i]);
+                        p.value.fetch_add(1, Ordering::SeqCst);
+                    }
+                    let after = BiasedRc::as_ptr(&handles[i]) as usize;
+                    if before == after {
+                        // mutated in place: the handle is still there, and must be the only one
+                        let n_after = {
+                            let mut live = world.live.lock().unwrap();
+                            live[obj] += 1;
+                            live[obj]
+                        };
+                        if n_after != 1 {
+                            world.violation(format!("make_mut mutated object {} in place while {} handles exist ({})", obj, n_after, what));
+                        }
+                    } else {
+                        // cloned into a new logical object; the old handle was dropped
+                        let newobj = handles[i].obj;
+                        let mut live = world.live.lock().unwrap();
+                        if newobj >= live.len() {
+                            live.resize(newobj + 1, 0);
+                        }
+                        live[newobj] += 1;
+                        drop(live);
+                        if was_owner {
+                            world.owner_side(obj, me, -1);
+                        }
+                        {
+                            let mut b = world.biased.lock().unwrap();
+                            if newobj >= b.len() {
+                                b.resize(newobj + 1, (usize::MAX, 0));
+                            }
+                            b[newobj] = (me, 1);
+                            let mut o = world.orphaned.lock().unwrap();
+                            if newobj >= o.len() {
+                                o.resize(newobj + 1, false);
+                            }
+                        }
+                        let mut live = world.live.lock().unwrap();
+                        let _ = &mut live;
+                        let mut holders = world.holders.lock().unwrap();
+                        if newobj >= holders.len() {
+                            holders.resize(newobj + 1, vec![]);
+                        }
+                        holders[newobj].push(me);
+                    }
+                }
+            }
+            Op::TryUnwrap(h) => {
+                if let Some(i) = pick(h, handles.len()) {
+                    let obj = world.read(&handles[i], &what);
+                    let x = handles.swap_remove(i);
+                    match BiasedRc::try_unwrap(x) {
+                        Ok(p) => {
+                            let n = world.live.lock().unwrap()[obj];
+                            if n != 1 {
+                                world.violation(format!("try_unwrap moved the payload of object {} out while {} handles exist ({})", obj, n, what));
+                            }
+                            if p.magic.load(Ordering::SeqCst) != ALIVE {
+                                world.violation(format!("try_unwrap returned a destroyed payload ({})", what));
+                            }
+                            world.live.lock().unwrap()[obj] -= 1;
+                            world.owner_side(obj, me, -1);
+                            drop(p);
+                        }
+                        Err(x) => handles.push(x),
+                    }
+                }
+            }
+            Op::StrongCount(h) => {
+                if let Some(i) = pick(h, handles.len()) {
+                    world.read(&handles[i], &what);
+                    let _ = BiasedRc::strong_count(&handles[i]);
+                }
+            }
+            Op::Read(h) => {
+                if let Some(i) = pick(h, handles.len()) {
+                    world.read(&handles[i], &what);
+                }
+            }
+            Op::Merge => {
+                world.model_merge(me);
+                IN_MERGE.with(|c| c.set(true));
+                let n = QueueHandle::run_explicit_merge();
+                IN_MERGE.with(|c| c.set(false));
+                if n > 0 {
+                    world.merges.fetch_add(1, Ordering::SeqCst);
+                }
+            }
+        }
+        if atomic_ops {
+            IN_MERGE.with(|c| c.set(false));
+        }
+        if std::env::var("SVRC_TRACE").is_ok() {
+            let counts: Vec<String> = handles.iter().map(|h| format!("obj{}", h.obj)).collect();
+            eprintln!("[t{}] {} -> handles {:?} live {:?} drops {:?}", me, what, counts, world.live.lock().unwrap(), (0..3).map(|i| DROPS[i].load(Ordering::SeqCst)).collect::<Vec<_>>());
+        }
+        world.check_invariants(&what);
+        sched.yield_now(me);
+    }
+    // thread exit: remaining handles are dropped, then the thread's queue is merged
+    world.exiting[me].store(true, Ordering::SeqCst);
+    {
+        let mut inbox = world.inboxes[me].lock().unwrap();
+        handles.append(&mut inbox);
+    }
+    while let Some(x) = handles.pop() {
+        let obj = world.read(&x, "thread exit");
+        world.live.lock().unwrap()[obj] -= 1;
+        world.owner_side(obj, me, -1);
+        if atomic_ops {
+            IN_MERGE.with(|c| c.set(true));
+        }
+        drop(x);
+        if atomic_ops {
+            IN_MERGE.with(|c| c.set(false));
+        }
+        world.check_invariants(&format!("thread {} exit drop", me));
+        sched.yield_now(me);
+    }
+    world.model_merge(me);
+    {
+        // objects still owned by this thread although it holds no handle any more
+        let b = world.biased.lock().unwrap();
+        let mut o = world.orphaned.lock().unwrap();
+        for (obj, (owner, n)) in b.iter().enumerate() {
+            if *owner == me && *n > 0 {
+                if obj >= o.len() {
+                    o.resize(obj + 1, false);
+                }
+                o[obj] = true;
+            }
+        }
+    }
+    IN_MERGE.with(|c| c.set(true));
+    QueueHandle::finish_thread_merge();
+    IN_MERGE.with(|c| c.set(false));
+    world.check_invariants(&format!("thread {} exit merge", me));
+    sched.finish(me);
+}
+
+fn run_once(case: &Case, schedule: &[u8]) -> Outcome {
+    // fresh logical objects for this execution
+    for d in DROPS.iter() {
+        d.store(0, Ordering::SeqCst);
+    }
+    NEXT_OBJ.store(0, Ordering::SeqCst);
+    verif::reset();
+    let nthreads = case.threads.len();
+    let nobj = (case.objects as usize).clamp(1, MAX_OBJ);
+    let world = Arc::new(World {
+        inboxes: (0..nthreads).map(|_| Mutex::new(vec![])).collect(),
+        exiting: (0..nthreads).map(|_| std::sync::atomic::AtomicBool::new(false)).collect(),
+        biased: Mutex::new(vec![(0, 1); nobj]),
+        shared_model: Mutex::new(vec![(0, false); nobj]),
+        orphaned: Mutex::new(vec![false; nobj]),
+        live: Mutex::new(vec![0; nobj]),
+        holders: Mutex::new(vec![vec![]; nobj]),
+        violations: Mutex::new(vec![]),
+        shared_moment: std::sync::atomic::AtomicBool::new(false),
+        slow_ops: AtomicUsize::new(0),
+        merges: AtomicUsize::new(0),
+    });
+    let sched = Arc::new(Sched {
+        m: Mutex::new(SchedState {
+            current: usize::MAX,
+            waiting: vec![false; nthreads],
+            finished: vec![false; nthreads],
+            schedule: schedule.to_vec(),
+            pos: 0,
+            decisions: vec![],
+            widths: vec![],
+            steps: 0,
+        }),
+        cv: Condvar::new(),
+    });
+    // The scheduler hook: every access of a count word by a harness thread is a yield point.
+    {
+        let sched2 = sched.clone();
+        let world2 = world.clone();
+        verif::set_yield_hook(Some(Box::new(move |_addr, site| {
+            let me = MY_INDEX.with(|c| c.get());
+            if me != usize::MAX && !IN_MERGE.with(|c| c.get()) {
+                if site.starts_with("slow") || site.starts_with("merge") || site.starts_with("enqueue") {
+                    world2.slow_ops.fetch_add(1, Ordering::Relaxed);
+                }
+                sched2.yield_now(me);
+            }
+        })));
+    }
+    // Objects are created by thread 0 (inside its thread, so that it is their owner)
+    let mut joins = vec![];
+    let (tx, rx) = std::sync::mpsc::channel::<()>();
+    for t in 0..nthreads {
+        let ops = case.threads[t].clone();
+        let world = world.clone();
+        let sched = sched.clone();
+        let tx = tx.clone();
+        let atomic = case.atomic_ops;
+        joins.push(std::thread::spawn(move || {
+            MY_INDEX.with(|c| c.set(usize::MAX)); // not scheduled while creating
+            let init: Vec<BiasedRc<P>> = if t == 0 {
+                QueueHandle::register_thread();
+                (0..nobj)
+                    .map(|_| {
+                        let id = NEXT_OBJ.fetch_add(1, Ordering::SeqCst);
+                        world.live.lock().unwrap()[id] += 1;
+                        world.holders.lock().unwrap()[id].push(0);
+                        BiasedRc::new(P { obj: id, magic: AtomicU32::new(ALIVE), value: AtomicU32::new(0) })
+                    })
+                    .collect()
+            } else {
+                vec![]
+            };
+            tx.send(()).unwrap();
+            run_thread(t, ops, world, sched, init, atomic);
+        }));
+    }
+    for _ in 0..nthreads {
+        rx.recv().unwrap();
+    }
+    for j in joins {
+        let _ = j.join();
+    }
+    verif::set_yield_hook(None);
+    // final accounting: everything was dropped and every thread merged on exit
+    {
+        let live = world.live.lock().unwrap();
+        for (obj, n) in live.iter().enumerate() {
+            let d = DROPS[obj].load(Ordering::SeqCst);
+            if *n != 0 {
+                world.violation(format!("harness error: {} handles of object {} unaccounted", n, obj));
+            }
+            if d > 1 {
+                world.violation(format!("payload of object {} destroyed {} times", obj, d));
+            }
+            if d == 0 {
+                let orphan = world.orphaned.lock().unwrap().get(obj).copied().unwrap_or(false);
+                if orphan || !case.atomic_ops {
+                    world.violation(format!("leak: payload of object {} never destroyed (its owner thread exited while its handles lived on other threads)", obj));
+                } else {
+                    world.violation(format!("lost: payload of object {} never destroyed although every handle was dropped, every thread merged, and its owner never exited while owning it", obj));
+                }
+            }
+        }
+        for v in verif::take_violations() {
+            world.violation(v);
+        }
+    }
+    let st = sched.m.lock().unwrap();
+    let mut violations = world.violations.lock().unwrap().clone();
+    violations.dedup();
+    Outcome {
+        violations,
+        steps: st.steps,
+        decisions: st.decisions.clone(),
+        widths: st.widths.clone(),
+        shared_moment: world.shared_moment.load(Ordering::SeqCst),
+        slow_ops: world.slow_ops.load(Ordering::SeqCst),
+        merges: world.merges.load(Ordering::SeqCst),
+        schedules_run: 1,
+    }
+}
+
+/// enumerate every schedule of the case (depth-first over the decision points)
+fn run_exhaustive(case: &Case, limit: usize) -> Outcome {
+    let mut prefix: Vec<u8> = vec![]; // choice index at each decision
+    let mut total = Outcome::default();
+    loop {
+        // encode choice indices as schedule bytes: idx -> smallest byte mapping to idx needs widths;
+        // run once with zeros beyond the prefix to learn the widths
+        let probe = run_with_choices(case, &prefix);
+        total.schedules_run += 1;
+        total.steps += probe.steps;
+        total.shared_moment |= probe.shared_moment;
+        total.slow_ops += probe.slow_ops;
+        total.merges += probe.merges;
+        if !probe.violations.is_empty() {
+            total.violations = probe.violations;
+            total.decisions = probe.decisions;
+            total.widths = probe.widths;
+            return total;
+        }
+        if total.schedules_run >= limit {
+            total.widths = vec![255]; // marker: not exhaustive
+            return total;
+        }
+        // next prefix in odometer order
+        let mut choices = probe.decisions.clone();
+        let widths = probe.widths.clone();
+        let mut i = choices.len();
+        loop {
+            if i == 0 {
+                return total; // all schedules done
+            }
+            i -= 1;
+            if (choices[i] as usize) + 1 < widths[i] as usize {
+                choices[i] += 1;
+                choices.truncate(i + 1);
+                break;
+            }
+        }
+        prefix = choices;
+    }
+}
+
+fn run_with_choices(case: &Case, choices: &[u8]) -> Outcome {
+    // A choice index c among w runnable threads is encoded by the byte ceil(c*256/w)
+    // (the scheduler maps byte b to (b*w)>>8).  Widths are discovered as we go, so the
+    // encoding is done inside a schedule hook: we pass indices and a flag.
+    let sched: Vec<u8> = choices.to_vec();
+    let mut c2 = case.clone();
+    c2.schedule = vec![];
+    run_once_indexed(&c2, &sched)
+}
+
+/// like run_once but the schedule holds choice *indices* (clamped to the width)
+fn run_once_indexed(case: &Case, indices: &[u8]) -> Outcome {
+    // encode: for every position use byte = 255 if index is large; scheduler maps
+    // (b * w) >> 8; to select index i among w we need b in [ceil(256 i / w), ...).
+    // Since w is unknown here we run a small fixed-point: first run with zeros to get widths.
+    let mut bytes: Vec<u8> = vec![0; indices.len()];
+    loop {
+        let out = run_once(case, &bytes);
+        let mut changed = false;
+        for (p, want) in indices.iter().enumerate() {
+            if p >= out.widths.len() {
+                break;
+            }
+            let w = out.widths[p] as usize;
+            let i = (*want as usize).min(w - 1);
+            let b = ((i * 256 + w - 1) / w).min(255) as u8;
+            if bytes[p] != b {
+                bytes[p] = b;
+                changed = true;
+                break; // widths after p may change
+            }
+        }
+        if !changed {
+            return out;
+        }
+    }
+}
+
+fn main() {
+    let mode = std::env::args().nth(1).unwrap_or_else(|| "run".into());
+    let limit: usize = std::env::args().nth(2).and_then(|s| s.parse().ok()).unwrap_or(20_000);
+    let stdin = std::io::stdin();
+    let stdout = std::io::stdout();
+    let mut out = stdout.lock();
+    for line in stdin.lock().lines() {
+        let line = line.unwrap();
+        if line.trim().is_empty() {
+            continue;
+        }
+        let case: Case = match serde_json::from_str(&line) {
+            Ok(c) => c,
+            Err(e) => {
+                writeln!(out, "{{\"error\":\"{}\"}}", e).unwrap();
+                continue;
+            }
+        };
+        // Every case runs in a forked child: the global queue of steel-rc, thread ids and the
+        // quarantine start pristine, and a crash kills only the child.
+        let mut fds = [0i32; 2];
+        unsafe { libc::pipe(fds.as_mut_ptr()) };
+        let pid = unsafe { libc::fork() };
+        if pid == 0 {
+            unsafe { libc::close(fds[0]) };
+            let o = if mode == "exhaustive" { run_exhaustive(&case, limit) } else { run_once(&case, &case.schedule) };
+            let text = serde_json::to_string(&o).unwrap();
+            let bytes = text.as_bytes();
+            let mut off = 0;
+            while off < bytes.len() {
+                let n = unsafe { libc::write(fds[1], bytes[off..].as_ptr() as *const _, bytes.len() - off) };
+                if n <= 0 {
+                    break;
+                }
+                off += n as usize;
+            }
+            unsafe { libc::_exit(0) };
+        }
+        unsafe { libc::close(fds[1]) };
+        let mut buf = Vec::new();
+        let mut chunk = [0u8; 4096];
+        loop {
+            let n = unsafe { libc::read(fds[0], chunk.as_mut_ptr() as *mut _, chunk.len()) };
+            if n <= 0 {
+                break;
+            }
+            buf.extend_from_slice(&chunk[..n as usize]);
+        }
+        let mut st = 0i32;
+        unsafe {
+            libc::close(fds[0]);
+            libc::waitpid(pid, &mut st, 0);
+        }
+        if libc::WIFSIGNALED(st) || buf.is_empty() {
+            let sig = if libc::WIFSIGNALED(st) { libc::WTERMSIG(st) } else { 0 };
+            writeln!(out, "{{\"violations\":[\"the execution crashed (signal {}): memory unsafety\"]}}", sig).unwrap();
+        } else {
+            out.write_all(&buf).unwrap();
+            writeln!(out).unwrap();
+        }
+        out.flush().unwrap();
+    }
+}
